@@ -212,7 +212,12 @@ class DESolver:
             X0_flat, dt = self.iterator(self._getdXdt, currTime, self._flattenX(X0), self._updateX)
             X0 = self._unflattenX(X0_flat, self._X0)
             
-            currTime += dt
+            #If the step covers the remaining time, land exactly on tf
+            #    currTime + (tf - currTime) can round to one ulp above (or below) tf
+            if dt >= tf - currTime:
+                currTime = tf
+            else:
+                currTime += dt
             X0, stop = self.postProcess(currTime, X0)
             i += 1
 
